@@ -356,7 +356,11 @@ func (l *BlockchainRpcTxWatcher) observationLoop(
 
 			// Now check if we got enough confirmations. We use first seen - 1
 			// as this is the block the tx was confirmed in the first time.
-			if current-(firstSeen-1) >= l.requiredConfs {
+			// The height we were handed can be older than the tip the node
+			// answered with: count in signed arithmetic, so that a block
+			// above that height is "not deep enough yet" instead of wrapping
+			// around to a huge number of confirmations.
+			if int64(current)-(int64(firstSeen)-1) >= int64(l.requiredConfs) {
 				// We finally made it, enough confirmations and below the safety
 				// limit!
 				l.callbackAndLog(swapId, rawTx, nil)
